@@ -62,6 +62,11 @@ int main(int argc, char **argv) {
       KeySpec k = gen_key(type);
       bool sh = false; if (k.kind == K_EC) { int w = (k.bits + 7) / 8; sh = pkey_bn(k.pkey, OSSL_PKEY_PARAM_EC_PUB_X, w)[0] == 0 || pkey_bn(k.pkey, OSSL_PKEY_PARAM_EC_PUB_Y, w)[0] == 0 || pkey_bn(k.pkey, OSSL_PKEY_PARAM_PRIV_KEY, w)[0] == 0; }
       if (want_short && k.kind == K_EC && !sh) { EVP_PKEY_free(k.pkey); continue; }
+      // optional 5th argument: how the same key is written to the file - EC point form compressed / hybrid, or the traditional (PKCS#1 / SEC1) private key PEM
+      std::string form = argc >= 6 ? argv[5] : "";
+      if (k.kind == K_EC && (form == "compressed" || form == "hybrid")) EVP_PKEY_set_utf8_string_param(k.pkey, OSSL_PKEY_PARAM_EC_POINT_CONVERSION_FORMAT, form.c_str());
+      if (form == "trad") { BIO *b = BIO_new(BIO_s_mem()); PEM_write_bio_PrivateKey_traditional(b, k.pkey, nullptr, nullptr, 0, nullptr, nullptr); char *d; long n = BIO_get_mem_data(b, &d); wfile(pre + ".pem", std::string(d, n)); BIO_free(b); }
+      else
       wfile(pre + ".pem", pkey_to_pem(k.pkey, true)); wfile(pre + "_pub.pem", pkey_to_pem(k.pkey, false)); printf("%s %d %s\n", k.kind == K_RSA ? "RSA" : k.kind == K_EC ? "EC" : "OKP", k.bits, sh ? "short" : "full"); return 0;
     }
     return 2;
